@@ -4,13 +4,18 @@ CONSTANTS
   PeerScripts <- PeerScriptsMC
   MaxChunks = 2
   Dev = {}
-SPECIFICATION Spec
+SPECIFICATION MCSpec
 INVARIANT C10_OneCloseTag
 INVARIANT C10_NothingAfterClose
 INVARIANT C10_ClosedIffTag
 INVARIANT C10_SendersRefused
 INVARIANT C10_BothClosedAfterServe
+INVARIANT C10_ServeReturnsForCause
+INVARIANT C10_ServeRetTellsCause
 INVARIANT C05_Contiguous
 INVARIANT C05_NoStrayWrites
+INVARIANT C05_StaleHandleDead
 PROPERTY C05_WritesUnderLock
+PROPERTY C10_DeadlineKept
+PROPERTY C10_ReplacedDeadlineInert
 CHECK_DEADLOCK FALSE
